@@ -80,25 +80,37 @@ Proof.
   - rewrite (IHn (length r)) by (subst; simpl; lia || reflexivity). split; [intro H; apply wf_plain; [discriminate|exact H]|intro H; inversion H; subst; assumption].
 Qed.
 
-(* process_header: the only failing partial operation is tokens[jr_idx + 1] *)
-Theorem process_header_crash_iff aliases columns dc h :
-  process_header aliases columns dc h = None <->
-  (mem h columns && negb (is_alias aliases h) = false /\ mem (to_snake_case h) columns && negb (is_alias aliases (to_snake_case h)) = false /\
-   dc || contains COLON2 h = false /\
-   exists i, index_of s_jr (map py_strip (py_split [58%N] h)) = Some i /\ nth_error (map py_strip (py_split [58%N] h)) (S i) = None).
+(* process_header: the only partial operation is tokens[jr_idx + 1]; jr is looked for in tokens[:-1], so a token follows *)
+Lemma index_of_lt x l i : index_of x l = Some i -> i < length l.
 Proof.
-  unfold process_header. destruct (mem h columns && negb (is_alias aliases h)); [split; [discriminate|intros (H & _); discriminate]|].
-  destruct (mem (to_snake_case h) columns && negb (is_alias aliases (to_snake_case h))); [split; [discriminate|intros (_ & H & _); discriminate]|].
+  revert i; induction l as [|y r IH]; intros i; cbn [index_of]; [discriminate|].
+  destruct (seqb x y); [intro H; inversion H; simpl; lia|].
+  destruct (index_of x r) as [k|]; [|discriminate]. intro H; inversion H; subst. specialize (IH k eq_refl). simpl; lia.
+Qed.
+Lemma removelast_length {A} (l : list A) : length (removelast l) = length l - 1.
+Proof. induction l as [|a [|b r] IH]; [reflexivity|reflexivity|]. change (removelast (a :: b :: r)) with (a :: removelast (b :: r)). cbn [length] in *. lia. Qed.
+Lemma jr_has_successor toks i : index_of s_jr (removelast toks) = Some i -> nth_error toks (S i) <> None.
+Proof. intro H. apply index_of_lt in H. rewrite removelast_length in H. apply nth_error_Some. lia. Qed.
+Theorem process_header_total aliases columns dc h : process_header aliases columns dc h <> None.
+Proof.
+  unfold process_header. destruct (mem h columns && negb (is_alias aliases h)); [discriminate|].
+  destruct (mem (to_snake_case h) columns && negb (is_alias aliases (to_snake_case h))); [discriminate|].
   destruct (dc || contains COLON2 h).
-  - split; [|intros (_ & _ & H & _); discriminate]. destruct (map py_strip (py_split COLON2 h)) as [|t0 rest]; [discriminate|].
+  - destruct (map py_strip (py_split COLON2 h)) as [|t0 rest]; [discriminate|].
     destruct (alias_get (to_snake_case t0) aliases) as [[|? ?]|]; try discriminate; destruct (mem (to_snake_case t0) columns); discriminate.
-  - destruct (index_of s_jr (map py_strip (py_split [58%N] h))) as [i|] eqn:Ei.
-    + destruct (nth_error (map py_strip (py_split [58%N] h)) (S i)) as [nxt|] eqn:En.
-      * split; [|intros (_ & _ & _ & j & Hj & Hn); inversion Hj; subst; congruence].
-        destruct (firstn i (map py_strip (py_split [58%N] h)) ++ [s_jr ++ [58%N] ++ nxt] ++ skipn (i + 2) (map py_strip (py_split [58%N] h))) as [|t0 rest]; [discriminate|].
-        destruct (alias_get (to_snake_case t0) aliases) as [[|? ?]|]; try discriminate; destruct (mem (to_snake_case t0) columns); discriminate.
-      * split; [intros _; repeat split; exists i; tauto|reflexivity].
-    + split; [|intros (_ & _ & _ & j & Hj & _); discriminate].
-      destruct (map py_strip (py_split [58%N] h)) as [|t0 rest]; [discriminate|].
+  - destruct (index_of s_jr (removelast (map py_strip (py_split [58%N] h)))) as [i|] eqn:Ei.
+    + destruct (nth_error (map py_strip (py_split [58%N] h)) (S i)) as [nxt|] eqn:En; [|exfalso; exact (jr_has_successor _ _ Ei En)].
+      destruct (firstn i (map py_strip (py_split [58%N] h)) ++ [s_jr ++ [58%N] ++ nxt] ++ skipn (i + 2) (map py_strip (py_split [58%N] h))) as [|t0 rest]; [discriminate|].
       destruct (alias_get (to_snake_case t0) aliases) as [[|? ?]|]; try discriminate; destruct (mem (to_snake_case t0) columns); discriminate.
+    + destruct (map py_strip (py_split [58%N] h)) as [|t0 rest]; [discriminate|].
+      destruct (alias_get (to_snake_case t0) aliases) as [[|? ?]|]; try discriminate; destruct (mem (to_snake_case t0) columns); discriminate.
+Qed.
+(* the join happens exactly when a jr token has a successor; a trailing jr (e.g. a column called jr) is left alone *)
+Lemma trailing_jr_untouched : forall aliases columns, process_header aliases columns false s_jr = Some [s_jr] \/ mem s_jr columns = true \/ alias_get s_jr aliases <> None.
+Proof.
+  intros aliases columns. destruct (mem s_jr columns) eqn:Em; [right; left; reflexivity|].
+  destruct (alias_get s_jr aliases) eqn:Ea; [right; right; discriminate|]. left.
+  unfold process_header. rewrite Em. cbn [andb]. change (to_snake_case s_jr) with s_jr. rewrite Em. cbn [andb orb].
+  change (contains COLON2 s_jr) with false. cbv iota. change (map py_strip (py_split [58%N] s_jr)) with [s_jr].
+  cbn [removelast index_of]. change (to_snake_case s_jr) with s_jr. rewrite Ea, Em. reflexivity.
 Qed.
